@@ -7,7 +7,7 @@ from lib.runner import Group, REPO
 def plan(tier, seed):
     hs = c07.gen_all(tier, seed)["C14"]
     g = Group("swimos_runtime_c14", REPO, "repo", hs, package="swimos_runtime", stubbing=True,
-              jobs=5, timeout=600 if tier == "quick" else 1800, mem_gb=12)
+              jobs=5, timeout=1500 if tier == "quick" else 2400, mem_gb=12)
     meta = {
         "rule": "every sequence of pushes (item length concrete 0,1 quick (+6 seeded with 2-byte items) / 0,1,2 thorough; bytes symbolic) and writer "
                 "hand-backs up to length 3 (quick) / 3 with item lengths 0..2 (thorough) through the real SupplyBackpressure as Uplinks::{push,replace_and_pop} drive it; "
